@@ -211,8 +211,10 @@ Definition ellipses_inds_of (inputs : list str) (needs : list (option Z)) : opti
   | Some req => Some (req, fresh_symbols (Z.to_nat req) (concat inputs))
   end.
 
-(* parse_equation_ellipses(eq, shapes, tuples=True); None = raises *)
-Definition parse_equation_ellipses (eq : str) (shapes : list shape) : option (list str * str) :=
+(* parse_equation_ellipses(eq, shapes, tuples=True); None = raises.
+   fix_outell = false is the code as pinned; true is the code with
+   proposed_fixes/C12_output-ellipsis-only.patch applied (see `fixes` below). *)
+Definition parse_equation_ellipses_v (fix_outell : bool) (eq : str) (shapes : list shape) : option (list str * str) :=
   let parts := split_arrow eq in
   let lhs := hd [] parts in
   let rhs := tl parts in
@@ -239,9 +241,17 @@ Definition parse_equation_ellipses (eq : str) (shapes : list shape) : option (li
     end
   else
     match rhs with
-    | output :: _ => Some (inputs, output)
+    | output :: _ =>
+      if fix_outell then
+        match check_ellipsis output with
+        | None => None
+        | Some true => Some (inputs, replace_ell [] output)
+        | Some false => Some (inputs, output)
+        end
+      else Some (inputs, output)
     | [] => Some (inputs, find_output_str lhs)
     end.
+Definition parse_equation_ellipses := parse_equation_ellipses_v false.
 
 (* the tuples=False form: (",".join(inputs), output) *)
 Definition parse_equation_ellipses_str (eq : str) (shapes : list shape) : option (str * str) :=
@@ -297,57 +307,6 @@ Fixpoint sm_terms (m : list (ilab * str)) (terms : list (list ilab)) : option (l
               end
   end.
 
-(* convert_from_interleaved(args) with args = a0, in0, a1, in1, ... [, out] ;
-   returns the equation string (the arrays/shapes are passed through) *)
-Definition convert_from_interleaved (inputs : list (list ilab)) (out : option (list ilab)) : option str :=
-  let symbol_map := get_symbol_map inputs in
-  match sm_terms symbol_map inputs with
-  | None => None
-  | Some terms =>
-    let eq := join [c_comma] terms in
-    match out with
-    | None => Some eq
-    | Some o => match sm_term symbol_map o with
-                | Some os => Some (eq ++ [c_dash; c_gt] ++ os)
-                | None => None
-                end
-    end
-  end.
-
-(* the two call forms of einsum( *args ), arrays replaced by their shapes *)
-Inductive eargs :=
-| AStr (eq : str) (shapes : list shape)
-| AInter (ops : list (shape * list ilab)) (out : option (list ilab)).
-
-(* parse_einsum_input(args, shapes=True, tuples=True) -> (inputs, output, shapes) *)
-Definition parse_einsum_input (a : eargs) : option (list str * str * list shape) :=
-  match a with
-  | AStr eq shapes =>
-    match parse_equation_ellipses eq shapes with
-    | Some (i, o) => Some (i, o, shapes)
-    | None => None
-    end
-  | AInter ops out =>
-    match convert_from_interleaved (map snd ops) out with
-    | None => None
-    | Some eq =>
-      match parse_equation_ellipses eq (map fst ops) with
-      | Some (i, o) => Some (i, o, map fst ops)
-      | None => None
-      end
-    end
-  end.
-
-(* eq_to_inputs_output(eq) *)
-Definition eq_to_inputs_output (eq : str) : list str * str :=
-  let parts := split_arrow eq in
-  let lhs := hd [] parts in
-  let inputs := split_char c_comma lhs in
-  match tl parts with
-  | o :: _ => (inputs, o)
-  | [] => (inputs, find_output_str lhs)
-  end.
-
 (* find_output_from_inputs(inputs): state = (appeared, once) *)
 Fixpoint remove_first (x : nat) (l : list nat) : list nat :=
   match l with
@@ -360,6 +319,81 @@ Definition fo_step (st : list nat * list nat) (ind : nat) : list nat * list nat 
   else (ind :: appeared, once ++ [ind]).                       (* once[ind] = None; appeared.add(ind) *)
 Definition find_output_from_inputs (inputs : list (list nat)) : list nat :=
   snd (fold_left (fun st term => fold_left fo_step term st) inputs ([], [])).
+
+(* which of the proposed fixes are present in the code the model stands for.  The check
+   derives the flags from KNOWN_FINDINGS.txt: a finding still listed as `known:` means the
+   pinned behaviour (false); once it is turned into `fixed:` the model with the patch is
+   demanded of the code. *)
+Record fixes := mkFx { fx_spaces : bool; fx_inter : bool; fx_outell : bool }.
+Definition no_fixes := mkFx false false false.
+Definition all_fixes := mkFx true true true.
+
+(* convert_from_interleaved(args) with args = a0, in0, a1, in1, ... [, out] ;
+   returns the equation string (the arrays/shapes are passed through).
+   fix_inter (proposed_fixes/C12_interleaved-implicit-order.patch): without an output
+   sublist the output is made explicit: find_output_from_inputs(inputs) minus Ellipsis,
+   .sort()ed by label, Ellipsis first if any input has one. *)
+Definition ilab_enc (x : ilab) : nat := match x with IE => 0 | IL k => S k end.
+Definition ilab_dec (n : nat) : ilab := match n with 0 => IE | S k => IL k end.
+Definition interleaved_sorted_output (inputs : list (list ilab)) : list ilab :=
+  let once := find_output_from_inputs (map (map ilab_enc) inputs) in
+  let named := sort_nat (filter (fun n => negb (Nat.eqb n 0)) once) in
+  map ilab_dec ((if existsb (existsb (ilab_eqb IE)) inputs then [0] else []) ++ named).
+
+Definition convert_from_interleaved_v (fix_inter : bool) (inputs : list (list ilab)) (out : option (list ilab)) : option str :=
+  let symbol_map := get_symbol_map inputs in
+  match sm_terms symbol_map inputs with
+  | None => None
+  | Some terms =>
+    let eq := join [c_comma] terms in
+    match (match out with
+           | Some o => Some o
+           | None => if fix_inter then Some (interleaved_sorted_output inputs) else None
+           end) with
+    | None => Some eq
+    | Some o => match sm_term symbol_map o with
+                | Some os => Some (eq ++ [c_dash; c_gt] ++ os)
+                | None => None
+                end
+    end
+  end.
+Definition convert_from_interleaved := convert_from_interleaved_v false.
+
+(* the two call forms of einsum( *args ), arrays replaced by their shapes *)
+Inductive eargs :=
+| AStr (eq : str) (shapes : list shape)
+| AInter (ops : list (shape * list ilab)) (out : option (list ilab)).
+
+(* parse_einsum_input(args, shapes=True, tuples=True) -> (inputs, output, shapes) *)
+Definition strip_spaces (eq : str) : str := filter (fun c => negb (Nat.eqb c c_space)) eq.
+(* the equation string handed to parse_equation_ellipses *)
+Definition einsum_eq_v (fx : fixes) (a : eargs) : option str :=
+  match a with
+  | AStr eq _ => Some (if fx_spaces fx then strip_spaces eq else eq)   (* eq = eq.replace(" ", "") *)
+  | AInter ops out => convert_from_interleaved_v (fx_inter fx) (map snd ops) out
+  end.
+Definition eargs_shapes (a : eargs) : list shape :=
+  match a with AStr _ s => s | AInter ops _ => map fst ops end.
+Definition parse_einsum_input_v (fx : fixes) (a : eargs) : option (list str * str * list shape) :=
+  match einsum_eq_v fx a with
+  | None => None
+  | Some eq =>
+    match parse_equation_ellipses_v (fx_outell fx) eq (eargs_shapes a) with
+    | Some (i, o) => Some (i, o, eargs_shapes a)
+    | None => None
+    end
+  end.
+Definition parse_einsum_input := parse_einsum_input_v no_fixes.
+
+(* eq_to_inputs_output(eq) *)
+Definition eq_to_inputs_output (eq : str) : list str * str :=
+  let parts := split_arrow eq in
+  let lhs := hd [] parts in
+  let inputs := split_char c_comma lhs in
+  match tl parts with
+  | o :: _ => (inputs, o)
+  | [] => (inputs, find_output_str lhs)
+  end.
 
 (* ind_map = defaultdict(map(get_symbol, count()).__next__): label -> symbol, insertion ordered;
    the k-th new label receives get_symbol(k) *)
@@ -460,11 +494,12 @@ Definition normalize_input (inputs : list (list nat)) (output : option (list nat
 (* einsum( *args ) up to the point where a tree is searched:
    parse_einsum_input(tuples=True) -> array_contract(arrays, inputs, output) ->
    array_contract_expression(inputs, output, shapes=shapes) -> normalize_input(canonicalize=True) *)
-Definition einsum_front (a : eargs) : option (list (list nat) * list nat * sizes) :=
-  match parse_einsum_input a with
+Definition einsum_front_v (fx : fixes) (a : eargs) : option (list (list nat) * list nat * sizes) :=
+  match parse_einsum_input_v fx a with
   | None => None
   | Some (inputs, output, shapes) => normalize_input inputs (Some output) None (Some shapes) true
   end.
+Definition einsum_front := einsum_front_v no_fixes.
 
 (* array_contract(arrays, inputs, output=None) front: shapes = map(shape, arrays) *)
 Definition array_contract_front (inputs : list (list nat)) (output : option (list nat)) (shapes : list shape)
@@ -788,17 +823,6 @@ Definition model_ellipses_inds (eq : str) (shapes : list shape) : str :=
 Definition ops_eqb (a b : list (list nat) * list nat) : bool :=
   list_eqb (list_eqb Nat.eqb) (fst a) (fst b) && list_eqb Nat.eqb (snd a) (snd b).
 
-Definition agrees_with_numpy (eq : str) (shapes : list shape) : option bool :=
-  match np_parse eq shapes with
-  | None => None
-  | Some (ops, out) =>
-    let E := model_ellipses_inds eq shapes in
-    match parse_equation_ellipses eq shapes with
-    | None => Some false
-    | Some mo => Some (ops_eqb mo (map (map (rho E)) ops, map (rho E) out))
-    end
-  end.
-
 (* interleaved: symbols are allocated by the model, so compare up to the model's own
    symbol map: LN (letter of label k) -> symbol_map[k] *)
 Definition inter_letter_to_sym (inputs : list (list ilab)) (c : nat) : nat :=
@@ -807,26 +831,31 @@ Definition inter_letter_to_sym (inputs : list (list ilab)) (c : nat) : nat :=
   | Some [s] => s
   | _ => 0
   end.
-Definition rho_inter (inputs : list (list ilab)) (E : str) (l : lab) : nat :=
+Definition rho_args (a : eargs) (E : str) (l : lab) : nat :=
   match l with
-  | LN c => inter_letter_to_sym inputs c
+  | LN c => match a with AStr _ _ => c | AInter ops _ => inter_letter_to_sym (map snd ops) c end
   | LB k => nth (length E - 1 - k) E 0
   end.
-Definition agrees_with_numpy_inter (ops : list (shape * list ilab)) (out : option (list ilab)) : option bool :=
-  match np_parse_inter ops out with
+
+Definition agrees_args_v (fx : fixes) (a : eargs) : option bool :=
+  match np_parse_args a with
   | None => None
   | Some (nops, nout) =>
-    match convert_from_interleaved (map snd ops) out with
+    match einsum_eq_v fx a with
     | None => Some false
     | Some eq =>
-      let E := model_ellipses_inds eq (map fst ops) in
-      let r := rho_inter (map snd ops) E in
-      match parse_equation_ellipses eq (map fst ops) with
+      let E := model_ellipses_inds eq (eargs_shapes a) in
+      let r := rho_args a E in
+      match parse_equation_ellipses_v (fx_outell fx) eq (eargs_shapes a) with
       | None => Some false
       | Some mo => Some (ops_eqb mo (map (map r) nops, map r nout))
       end
     end
   end.
+Definition agrees_with_numpy (eq : str) (shapes : list shape) : option bool :=
+  agrees_args_v no_fixes (AStr eq shapes).
+Definition agrees_with_numpy_inter (ops : list (shape * list ilab)) (out : option (list ilab)) : option bool :=
+  agrees_args_v no_fixes (AInter ops out).
 
 (* the network the front end builds is consistent with the operands: every axis of
    every operand has the size the size_dict gives to its label *)
@@ -834,19 +863,21 @@ Definition term_consistent (sd : sizes) (term : list nat) (sh : shape) : bool :=
   Nat.eqb (length term) (length sh) &&
   forallb (fun xd => match zlook (fst xd) sd with Some v => (v =? snd xd)%Z | None => false end)
           (combine term sh).
-Definition front_consistent (a : eargs) : option bool :=
-  match einsum_front a with
+Definition front_consistent_v (fx : fixes) (a : eargs) : option bool :=
+  match einsum_front_v fx a with
   | None => None
   | Some (ins, out, sd) =>
-    Some (Nat.eqb (length ins) (length (shapes_of a)) &&
-          forallb (fun ts => term_consistent sd (fst ts) (snd ts)) (combine ins (shapes_of a)))
+    Some (Nat.eqb (length ins) (length (eargs_shapes a)) &&
+          forallb (fun ts => term_consistent sd (fst ts) (snd ts)) (combine ins (eargs_shapes a)))
   end.
+Definition front_consistent := front_consistent_v no_fixes.
 (* shape of the result the front end promises *)
-Definition front_out_shape (a : eargs) : option (list Z) :=
-  match einsum_front a with
+Definition front_out_shape_v (fx : fixes) (a : eargs) : option (list Z) :=
+  match einsum_front_v fx a with
   | None => None
   | Some (_, out, sd) => Some (map (fun x => match zlook x sd with Some v => v | None => 1%Z end) out)
   end.
+Definition front_out_shape := front_out_shape_v no_fixes.
 
 (* --- structured equations, for stating the theorems over ALL well-formed inputs --- *)
 (* a term: letters before the ellipsis, whether there is one, letters after *)
